@@ -79,9 +79,40 @@ pub fn check_entry(klen: usize, vlen: usize) -> Result<(), String> {
     Ok(())
 }
 
+fn record_entry((k, v): (usize, usize), acc: &mut Acc) {
+    acc.evaluations += 1;
+    acc.states += 1;
+    acc.transitions += 3;
+    acc.nontrivial += 1;
+    match check_entry(k, v) {
+        Ok(()) => acc.hist("boundary_entry_ok"),
+        Err(msg) => {
+            acc.hist("violation");
+            acc.violation(Violation {
+                signature: format!("entry={k},{v}"),
+                summary: format!("C14: {msg}"),
+                case: json!({"kind": "entry", "klen": k, "vlen": v}),
+            });
+        }
+    }
+}
+
 pub fn run(tier: Tier) -> i32 {
     let mut rep = Report::new("C14", tier, "model_checking");
     let deadline = Deadline::after(Duration::from_secs(tier.pick(55, 3000)));
+    // the 5-byte framing is exercised through the API in the quick tier too, by one value of
+    // 2^28 bytes; it runs on its own thread while the 2^32 sweep uses the pool
+    let quick_big: Vec<(usize, usize)> = if tier == Tier::Quick { vec![(2, 1 << 28)] } else { vec![] };
+    let big_thread = {
+        let list = quick_big.clone();
+        std::thread::spawn(move || {
+            let mut a = Acc::default();
+            for p in list {
+                record_entry(p, &mut a);
+            }
+            a
+        })
+    };
     // E4: all 2^32 values, in 2^16 chunks of 2^16
     let chunks = 1usize << 16;
     let acc = par_for(chunks, 16, &deadline, |c, acc: &mut Acc| {
@@ -144,23 +175,7 @@ pub fn run(tier: Tier) -> i32 {
     // big entries are run one at a time to bound memory
     let small: Vec<(usize, usize)> = pairs.iter().copied().filter(|(k, v)| k + v < (1 << 24)).collect();
     let big: Vec<(usize, usize)> = pairs.iter().copied().filter(|(k, v)| k + v >= (1 << 24)).collect();
-    let run_pair = |(k, v): (usize, usize), acc: &mut Acc| {
-        acc.evaluations += 1;
-        acc.states += 1;
-        acc.transitions += 3;
-        acc.nontrivial += 1;
-        match check_entry(k, v) {
-            Ok(()) => acc.hist("boundary_entry_ok"),
-            Err(msg) => {
-                acc.hist("violation");
-                acc.violation(Violation {
-                    signature: format!("entry={k},{v}"),
-                    summary: format!("C14: {msg}"),
-                    case: json!({"kind": "entry", "klen": k, "vlen": v}),
-                });
-            }
-        }
-    };
+    let run_pair = record_entry;
     let a2 = par_for(small.len(), 1, &deadline, |i, acc| run_pair(small[i], acc));
     rep.acc.merge(a2);
     let mut a3 = Acc::default();
@@ -172,8 +187,9 @@ pub fn run(tier: Tier) -> i32 {
         run_pair(*p, &mut a3);
     }
     rep.acc.merge(a3);
-    rep.set("rule", json!("E4: all 2^32 length values through the verif re-export of the private codec: encode must equal the harness's own LEB128 (1..=5 bytes), and decode must return the value and consume exactly the encoded length on (i) the exact bytes, (ii) the bytes followed by 0xFF.., (iii) followed by 0x00..; E2: entries whose key or value length is 2^7, 2^14, 2^21 (thorough: 2^28) -1/0/+1 written through Writer, read back through Reader (both scans) and decoded by the independent decoder; distinct_nontrivial = values needing >= 2 bytes plus boundary entries"));
-    rep.set("bound", json!({"values": "0..=2^32-1 (complete)", "api_boundary_entries": pairs.len(), "largest_api_length": lens.iter().max()}));
+    rep.acc.merge(big_thread.join().expect("big-entry thread panicked"));
+    rep.set("rule", json!("E4: all 2^32 length values through the verif re-export of the private codec: encode must equal the harness's own LEB128 (1..=5 bytes), and decode must return the value and consume exactly the encoded length on (i) the exact bytes, (ii) the bytes followed by 0xFF.., (iii) followed by 0x00..; E2: entries whose key or value length is 2^7, 2^14, 2^21 -1/0/+1 (plus one 2^28-byte value; thorough: 2^28 -1/0/+1 for keys and values) written through Writer, read back through Reader (both scans) and decoded by the independent decoder; distinct_nontrivial = values needing >= 2 bytes plus boundary entries"));
+    rep.set("bound", json!({"values": "0..=2^32-1 (complete)", "api_boundary_entries": pairs.len() + quick_big.len(), "largest_api_length": lens.iter().max()}));
     rep.assume("API-level entries of 2^32-1 bytes are not run (>= 12 GiB of copies per case); that boundary is covered at codec level only");
     rep.finish()
 }
